@@ -11,6 +11,7 @@ Inductive dres :=
 | DVal (v : jvalue)          (* the value returned (normally a version string) *)
 | DKeyError (k : ustring)    (* stix_dict[k] with k absent *)
 | DValueError                (* max() of an empty sequence *)
+| DParseError                (* variant notype_parse: a dict without "type" *)
 | DTypeError                 (* indexing a non-dict, unhashable type name, unorderable versions *)
 | DOutside.                  (* comparison of values this model does not order (lists, floats) *)
 
@@ -70,17 +71,28 @@ Definition max_with_21 (m : dres) : dres :=
   | e => e
   end.
 
-(* iterating a non-list `objects` value: a str yields 1-char strs, a dict its keys (each then
-   indexed with ["type"] -> TypeError); an empty one gives max() of nothing *)
-Definition iter_non_list (v : jvalue) : dres :=
-  match v with
-  | JStr [] => DValueError
-  | JObj [] => DValueError
-  | _ => DTypeError
-  end.
+(* Two places where the pinned code and a proposed repair differ; the check finds out at run
+   time which one the code matches (DESIGN 3, BUILDING "variants"):
+     bundle_default : max(.., default="2.1") over stix_dict.get("objects", []) instead of
+                      max(..) over stix_dict["objects"]  (an empty 2.1 bundle is then 2.1)
+     notype_parse   : a dict without "type" raises ParseError instead of KeyError          *)
+Record dmode := mkMode { bundle_default : bool; notype_parse : bool }.
+Definition pinned_mode : dmode := mkMode false false.
 
 Section Detect.
+  Variable md : dmode.
   Variable obs21 : list ustring.   (* keys of STIX2_OBJ_MAPS["2.1"]["observables"] *)
+
+  Definition empty_max : dres := if bundle_default md then DVal (JStr v21) else DValueError.
+
+  (* iterating a non-list `objects` value: a str yields 1-char strs, a dict its keys (each then
+     indexed with ["type"] -> TypeError); an empty one gives max() of nothing *)
+  Definition iter_non_list (v : jvalue) : dres :=
+    match v with
+    | JStr [] => empty_max
+    | JObj [] => empty_max
+    | _ => DTypeError
+    end.
 
   Fixpoint detect (d : jvalue) : dres :=
     match d with
@@ -90,8 +102,9 @@ Section Detect.
                      match m with
                      | [] => None
                      | (k, v) :: rest =>
-                       if ustr_eqb k k_objects then
+                       if ustr_eqb k_objects k then
                          Some (match v with
+                               | JArr [] => empty_max
                                | JArr l => seq_max ((fix each (l : list jvalue) : list dres :=
                                                        match l with [] => [] | x :: r => detect x :: each r end) l) None
                                | other => iter_non_list other
@@ -99,7 +112,7 @@ Section Detect.
                        else find rest
                      end) m in
       match jlookup k_type m with
-      | None => DKeyError k_type
+      | None => if notype_parse md then DParseError else DKeyError k_type
       | Some ty =>
         match jlookup k_spec_version m with
         | Some sv => if is_bundle_type ty then DVal (JStr v20) else DVal sv
@@ -109,7 +122,7 @@ Section Detect.
           | Some _ =>
             if is_bundle_type ty then
               match objs with
-              | None => DKeyError k_objects
+              | None => if bundle_default md then DVal (JStr v21) else DKeyError k_objects
               | Some r => max_with_21 r
               end
             else match ty with
@@ -169,14 +182,14 @@ Definition has_nonproperty_extension (m : list (ustring * jvalue)) : bool :=
   end.
 
 (* dict_to_stix2(stix_dict, allow_custom, _, version): which class, if any *)
-Definition pick_object (R : registry) (allow_custom : bool) (version : option ustring) (d : jvalue) : pick :=
+Definition pick_object (md : dmode) (R : registry) (allow_custom : bool) (version : option ustring) (d : jvalue) : pick :=
   match d with
   | JObj m =>
     match jlookup k_type m with
     | None => PParseError
     | Some ty =>
       let ver := if truthy_version version then match version with Some v => DVal (JStr v) | None => DValueError end
-                 else detect (r_observables21 R) d in
+                 else detect md (r_observables21 R) d in
       match ver with
       | DVal (JStr v) =>
         match ty with
@@ -203,7 +216,7 @@ Definition pick_object (R : registry) (allow_custom : bool) (version : option us
   end.
 
 (* parse_observable(data, _, allow_custom, _, version) *)
-Definition pick_observable (R : registry) (allow_custom : bool) (version : option ustring) (d : jvalue) : pick :=
+Definition pick_observable (md : dmode) (R : registry) (allow_custom : bool) (version : option ustring) (d : jvalue) : pick :=
   match d with
   | JObj m =>
     match jlookup k_type m with
@@ -211,7 +224,7 @@ Definition pick_observable (R : registry) (allow_custom : bool) (version : optio
     | Some ty =>
       (* detect runs on a copy that already has the _valid_refs member; that member never changes the result *)
       let ver := if truthy_version version then match version with Some v => DVal (JStr v) | None => DValueError end
-                 else detect (r_observables21 R) d in
+                 else detect md (r_observables21 R) d in
       match ver with
       | DVal (JStr v) =>
         match ty with
@@ -239,6 +252,7 @@ Definition show_dres (r : dres) : string :=
   | DVal v => "V " ++ show_jvalue v
   | DKeyError k => "KeyError " ++ show_ustr k
   | DValueError => "ValueError"
+  | DParseError => "ParseError"
   | DTypeError => "TypeError"
   | DOutside => "OUTSIDE"
   end.
